@@ -23,6 +23,12 @@ CLAIMED = {
          "CFG lock-pair / dominance rules, reaching-definition NOTOUCH dataflow, enumerated arithmetic tables with C widths"),
  "C12": ("arrival table over (count, arrival number): serial path, wake count, return values; counter-writer table; round-separation certificate with an enumerated list-selection table",
          "enumerated forced-branch tables + certificate recognition on fiber_barrier.c and the shared waker"),
+ "C15": ("terminate-swap-link publication order and memory orders of the MPSC/SPSC producers, guarded advance-copy-return shape of the consumers, head-writer tables, relaxed-MPSC index table and interpreted empty-pass table",
+         "CFG dominance / memory-order rules, resolved access-path equality, enumerated index and loop tables on mpsc_fifo.h, spsc_fifo.h, mpsc_relaxed_fifo.h"),
+ "C16": ("claim tables of trypush/trypop over (high, low, slot) incl. wrap-around, load order, slot write/clear only behind a won CAS, slot read before the CAS, mask/index tables, counter-writer table",
+         "enumerated forced-branch tables + CFG guard/dominance rules on lockfree_ring_buffer.h"),
+ "C17": ("announce-before-enqueue order, START_WORKING table, retire table over (out_count, in_count, subtraction result), reset-before-subtract order, count only behind a successful pop",
+         "enumerated forced-branch tables + CFG dominance/guard rules on work_queue.c"),
  "C18": ("ticket-lock tables (wait-loop exit, ticket+1), memory orders, trylock word construction interpreted over snapshots incl. wrap-around, record layout of the two halves, writers table",
          "enumerated tables + word-level interpretation + record-layout facts on fiber_spinlock.c"),
  "C10": ("fairness certificate: push/pop deque fields differ, swap only on empty, successor re-queue",
